@@ -12,6 +12,15 @@ import (
 func (s *sim) label(v *view, info *txInfo, height uint32) (string, *big.Int) {
 	cfg := s.node.cfg
 	lbl, fee := labelTx(v, info.facts, height, int64(cfg.MinTransactionFee), cfg.PowConfiguration.CoinbaseMaturity)
+	if lbl == "missing-signature-of-owner" || lbl == "signature-over-other-content" {
+		// spends from a script actor get their own class, naming the script shape
+		for _, in := range info.facts.ins {
+			if o, ok := v.utxo[in]; ok && o.owner >= 0 && s.actors[o.owner].weird != "" {
+				lbl = "unsigned-spend-from-script-address/" + s.actors[o.owner].weird
+				break
+			}
+		}
+	}
 	if s.frozen >= 0 && height >= s.frozenHeight {
 		// C32: from the start height on, no non-coinbase transaction that spends
 		// an output owned by the frozen address or pays to it is accepted.
@@ -53,5 +62,36 @@ func (s *sim) applyPolicyKnobs(cfg *config.Configuration) {
 		a := s.actors[s.frozen]
 		ph := a.acc.ProgramHash
 		cfg.FrozenAddresses = []config.FrozenAddress{{Address: a.acc.Address, DisableStartHeight: s.frozenHeight, ProgramHash: &ph}}
+	}
+}
+
+// adopt makes the model follow the node for one block whose acceptance is a
+// listed known finding: the block's effects are applied in full and it counts
+// as valid from here on, so later steps are judged against the chain the node
+// is really on. Only ever called for listed signatures; any other accepted
+// invalid block stops the run with a violation.
+func (s *sim) adopt(b *mBlock) {
+	v := b.parent.view.clone()
+	for _, tx := range b.blk.Transactions {
+		id := tx.Hash()
+		if tx.IsCoinBaseTx() {
+			for i, o := range tx.Outputs() {
+				v.utxo[outpoint{id, uint16(i)}] = mOut{ph: o.ProgramHash, owner: s.actorOf(o.ProgramHash), value: int64(o.Value), cbHeight: int64(b.height)}
+				v.minted.Add(v.minted, big.NewInt(int64(o.Value)))
+			}
+			v.txs[id] = b.height
+			continue
+		}
+		if info := s.txs[id]; info != nil {
+			applyTx(v, id, info.facts, info.outs, b.height)
+		}
+	}
+	v.subsidy.Add(v.subsidy, big.NewInt(int64(s.node.cfg.GetBlockReward(b.height))))
+	b.view = v
+	b.selfOK, b.valid, b.why = true, b.parent.valid, ""
+	for _, d := range s.blocks {
+		if d.idx > b.idx && d.parent != nil {
+			d.valid = d.selfOK && d.parent.valid
+		}
 	}
 }
